@@ -77,6 +77,16 @@ TV_NOTE = ("Trusted: TLC and the CommunityModules overrides; the harness encoder
 NOT_APPLICABLE = {}
 
 PROPS = {
+    "C10": dict(level="model_checking", nontrivial=nt_c10,
+                text="The product (column of each type or unknown) x (16 comparators incl. unknown) x (every kind of value of the documented dynamic unions, valid or not) x "
+                     "(plain / Not / inside Or / inside And) for Filter, predicates of every signature, a list of invalid requests for every other operation (Sort, Slice, Select, Copy, "
+                     "Distinct, WithRowNums, empty And/Or, Apply, Eval, FilteredApply, GroupBy, Aggregate) and random chains are executed under recover, each followed by continuations "
+                     "that hand in call-counting callbacks. TLC decides per event: a panic is never accepted; Err is set exactly when the specification's typing rules "
+                     "(Clause.tla, Ops.tla, ApplyEval.tla, Rel.tla) say so; an errored frame has Len() = -1, stays errored through every continuation, reaches Grouper/Aggregate/QFrames, "
+                     "makes ToCSV/ToJSON return an error, and no callback is invoked on it (CallsOK in Judge.tla).",
+                note=TV_NOTE + " Error texts are not compared, only error / no error. Quick samples a quarter of the Filter product per seed; thorough enumerates it.",
+                technique="TLA+ typing rules + error-monad state machine (QFTrace.tla) + TLC trace validation of harness executions under recover",
+                rule="systematic product of operations x argument kinds plus random chains; non-trivial = an event whose result is an error; distinct by (operation, arguments, result digest)"),
     "C01": dict(level="model_checking", nontrivial=nt_c01,
                 text="Histories of 10..30 operations (Filter, Sort, Slice, Select, Drop, Copy, Apply, FilteredApply, Eval, WithRowNums, Distinct, GroupBy/Aggregate/QFrames, "
                      "typed views whose Slice() results are then overwritten, ToCSV/ToJSON/String/Equals), each applied to any member of the growing family, are executed on the real "
